@@ -31,6 +31,7 @@ Definition writes_s (s : sstmt) : list nat :=
   | SMod dst x _ => x :: match dst with Some (y, _) => [y] | None => [] end
   | SSwap x _ y _ => [x; y]
   | SOpMod x _ _ _ y _ => [x; y]
+  | SOpDef x _ _ _ _ => [x]
   end.
 Definition writes (s : stmt) : list nat :=
   match s with
@@ -81,6 +82,8 @@ Proof.
     destruct (nth_error (set_var sg y0 vy') x) as [v1|]; simpl; auto.
     destruct (v_opassign_old p f old (if wrap then VList [res] else res) v1) as [v' ok']. simpl.
     rewrite nth_error_set_var_neq; [auto | tauto].
+  - destruct (nth_error sg x); simpl; auto. destruct (v_get_wd v p d); simpl; auto. destruct (eval sg e); simpl; auto.
+    destruct (v_opassign_old p f v0 v1 v) as [v' ok']. simpl. apply nth_error_set_var_neq. tauto.
 Qed.
 
 Lemma exec_list_frame body : forall sg y, ~ In y (flat_map writes_s body) ->
@@ -188,6 +191,8 @@ Proof.
     destruct (nth_error (set_var sg y vy') x) as [v1|]; simpl; [|apply length_set_var].
     destruct (v_opassign_old p f old (if wrap then VList [res] else res) v1) as [v' ok']. simpl.
     rewrite !length_set_var. reflexivity.
+  - destruct (nth_error sg x); simpl; auto. destruct (v_get_wd v p d); simpl; auto. destruct (eval sg e); simpl; auto.
+    destruct (v_opassign_old p f v0 v1 v) as [v' ok']. simpl. apply length_set_var.
 Qed.
 Lemma length_exec_list body : forall sg, length (fst (exec_list sg body)) = length sg.
 Proof.
